@@ -123,7 +123,7 @@ func RunReplayIdx(r *Replay) (string, []string, int) {
 		} else {
 			ret = Apply(o, d, st.C)
 		}
-		if len(ret) > 0 && ret[0] == "PANIC" && !(len(st.ExpRet) > 0 && st.ExpRet[0] == "PANIC") {
+		if len(ret) > 0 && (ret[0] == "PANIC" || ret[0] == "DEADLOCK") && !(len(st.ExpRet) > 0 && st.ExpRet[0] == ret[0]) {
 			return "panic", []string{fmt.Sprintf("step %d %v: %v", i, st.C, ret)}, i
 		}
 		if !reflect.DeepEqual(ret, st.ExpRet) {
